@@ -544,3 +544,13 @@ Proof.
   split; [apply Known_C19_3_dec; reflexivity|].
   intro H. apply Known_C19_3_dec in H. discriminate.
 Qed.
+
+(* The three message kinds BmpCodec::encode accepts but daemon/src/bmp.rs never sends are
+   written as a bare common header: none of them is a well-formed message of its type
+   (RFC 7854 4.8: per-peer header and Stats Count; 4.5: at least one TLV; 4.7: per-peer
+   header).  [wf_msg] excludes them for this reason. *)
+Lemma C19_bmp_unused_kinds_refuted :
+  read_bmp_stream 1 (bmp_encode [] StatsReports) = None
+  /\ read_bmp_stream 1 (bmp_encode [] Termination) = None
+  /\ read_bmp_stream 1 (bmp_encode [] RouteMirroring) = None.
+Proof. repeat split; vm_compute; reflexivity. Qed.
